@@ -2,6 +2,7 @@ package main
 
 import (
 	"errors"
+	"net"
 	"fmt"
 	"math/rand"
 	"sort"
@@ -321,5 +322,85 @@ func engineRetry(rng *rand.Rand, n int, tier string, o *Out) {
 		cancel()
 		o.Hist(fmt.Sprintf("avoid-npeers=%d", npeers))
 		o.Oracle("retry-avoid", fmt.Sprintf("a%d", c), npeers > 1, fmt.Sprint(hosts), verdict)
+	}
+
+	// 4. the library's own marking of tried peers: attempts made through Channel.BeginCall
+	// (direct host:port) and SubChannel.BeginCall against refused ports; every later attempt
+	// must see the host:ports (and hosts) tried before, and sub-channel selection must avoid them.
+	refused := func() string {
+		ln, err := net.Listen("tcp", "127.0.0.1:0")
+		if err != nil {
+			panic(err)
+		}
+		a := ln.Addr().String()
+		ln.Close()
+		return a
+	}
+	for c := 0; c < n/8+2; c++ {
+		npeers := 2 + rng.Intn(4)
+		sc := ch.GetSubChannel(fmt.Sprintf("svc-call-%d", c), tchannel.Isolated)
+		var hps []string
+		for i := 0; i < npeers; i++ {
+			hp := refused()
+			hps = append(hps, hp)
+			sc.Peers().Add(hp)
+		}
+		direct := refused()
+		plan := make([]int, npeers+2) // 0 = direct Channel.BeginCall, 1 = SubChannel.BeginCall
+		for i := range plan {
+			plan[i] = rng.Intn(2)
+		}
+		cb := tchannel.NewContextBuilder(5 * time.Second).SetRetryOptions(&tchannel.RetryOptions{MaxAttempts: len(plan), RetryOn: tchannel.RetryIdempotent})
+		ctx, cancel := cb.Build()
+		tried := map[string]bool{}
+		verdict := ""
+		ch.RunWithRetry(ctx, func(actx context.Context, rs *tchannel.RequestState) error {
+			prev := rs.PrevSelectedPeers()
+			for hp := range tried {
+				if _, ok := prev[hp]; !ok {
+					verdict = fmt.Sprintf("attempt %d does not see previously tried peer %s in PrevSelectedPeers", rs.Attempt, hp)
+				}
+				if _, ok := prev["127.0.0.1"]; !ok {
+					verdict = fmt.Sprintf("attempt %d does not see the host of previously tried peers", rs.Attempt)
+				}
+			}
+			before := map[string]bool{}
+			for hp := range prev {
+				before[hp] = true
+			}
+			var err error
+			if plan[rs.Attempt-1] == 0 {
+				_, err = ch.BeginCall(actx, direct, "svc", "m", &tchannel.CallOptions{RequestState: rs})
+				tried[direct] = true
+			} else {
+				_, err = sc.BeginCall(actx, "m", &tchannel.CallOptions{RequestState: rs})
+				var picked string
+				for hp := range rs.PrevSelectedPeers() {
+					if !before[hp] && hp != "127.0.0.1" {
+						picked = hp
+					}
+				}
+				untried := 0
+				for _, hp := range hps {
+					if !tried[hp] {
+						untried++
+					}
+				}
+				if picked == "" && untried > 0 {
+					verdict = fmt.Sprintf("sub-channel attempt %d marked no new peer although %d peers were untried", rs.Attempt, untried)
+				}
+				if picked != "" {
+					tried[picked] = true
+				}
+			}
+			if err == nil {
+				verdict = "call to a refused port succeeded?"
+				return nil
+			}
+			return err
+		})
+		cancel()
+		o.Hist(fmt.Sprintf("begincall-npeers=%d", npeers))
+		o.Oracle("retry-begincall", fmt.Sprintf("b%d", c), true, fmt.Sprint(plan, npeers, c), verdict)
 	}
 }
